@@ -165,7 +165,7 @@ fn mk_collectors(rng: &mut Rng, n: usize) -> (Vec<Arc<FilterCollector>>, Vec<Dis
             },
             true,
         ));
-        ds.push(Dispatch::new(Shared(a.clone())));
+        ds.push(vlib::rec::dispatch_of(a.clone(), rng.below(4)));
         arcs.push(a);
     }
     (arcs, ds)
